@@ -66,7 +66,8 @@ Section Canon.
                 else Some u)
             else Some u) (fun u =>
       if negb (is_nil (Hash u))
-      then bind (decodeEncode (trim_prefix1 35 (Hash u)) pes_Host) (SetHash idna_raw c u) else Some u))))
+      then bind (decodeEncode (trim_prefix1 35 (Hash u)) pes_Host) (SetHash idna_raw c u)
+      else SetHash idna_raw c u [] (* an empty fragment is dropped (fix for D16) *)))))
     else Some u) (fun u =>
     bind (if p_removePort p then SetPort idna_raw c u [] else Some u) (fun u =>
     bind (if p_removeUserInfo p then bind (SetUsername c u []) (fun u => SetPassword c u []) else Some u) (fun u =>
